@@ -129,6 +129,12 @@ def _act(self, mode: str):
         sys.exit(3)
     if mode == 'baseexc':
         raise CustomBase(f'base {self.name}')
+    if mode == 'exit0':
+        # the worker process ends with exit status 0 without ever reporting a result
+        trace(f'K {self.name}')
+        if os.environ.get('VERIF_INPROC') == '1':
+            raise SimulatedDeath('exit0')
+        os._exit(0)
     if mode == 'kill9':
         _die(signal.SIGKILL, self.name)
     if mode == 'kill15':
